@@ -1,8 +1,37 @@
 import SLModel.Drv.Util
+import SLModel.Core.Protocol
 open Lean
 namespace SL.Drv.C03
+open SL.Drv SL.Protocol
 
-/-- stub: no model operations for C03 yet -/
-def handle (_req : Json) : Except String Json := .error "C03: not implemented"
+def stepOf : String → Option Step
+  | "walSync" => some .walSync | "writeSegment" => some .writeSegment
+  | "storeTmp" => some .storeTmp | "storePreSync" => some .storePreSync
+  | "storeRename" => some .storeRename | "storeDirSync" => some .storeDirSync
+  | "appendMarker" => some .appendMarker | "syncMarker" => some .syncMarker
+  | "truncSetLen" => some .truncSetLen | "truncSync" => some .truncSync
+  | "errTruncSetLen" => some .errTruncSetLen | "errTruncSync" => some .errTruncSync
+  | "restoreTmp" => some .restoreTmp | "restorePreSync" => some .restorePreSync
+  | "restoreRename" => some .restoreRename | "restoreDirSync" => some .restoreDirSync
+  | "cleanup" => some .cleanup
+  | _ => none
+
+def cStr : C → String | .pre => "pre" | .post => "post"
+
+/-- `{"op":"commit","faults":[{"step":…,"after":bool}],"repaired":true}` → predicted observation -/
+def handle (req : Json) : Except String Json := do
+  let op ← getStr req "op"
+  match op with
+  | "commit" =>
+    let fs ← (getArrD req "faults").toList.mapM fun j => do
+      let s ← getStr j "step"
+      match stepOf s with
+      | some st => pure (⟨st, if getBoolD j "after" false then .after else .before⟩ : Fault)
+      | none => throw s!"unknown step {s}"
+    let st := commit fs (getBoolD req "repaired" true) init
+    return Json.mkObj [("ret", match st.ret with | some true => "ok" | some false => "err" | none => "none"),
+      ("mem", cStr st.memC), ("disk", cStr st.diskC), ("queue_kept", st.queue),
+      ("openable", openable st), ("good", good st), ("retry_good", retryGood st)]
+  | _ => throw s!"C03: unknown op {op}"
 
 end SL.Drv.C03
